@@ -10,7 +10,7 @@
   * `TCPUDSServerTransport.handle_client`: the calls of the loop body in order, the argument of `decode`, the exception classes
     caught, what follows the `except` (break), the guard in front of the reply; `UnixUDSServerTransport` inherits it unchanged.
 
-The model side (Proofs/C19.lean, `code_facts_agree`, `limits_admit_property_range`) states what these must be."""
+The model side (Proofs/C19.lean, `code_facts_agree`, `limits_cover_property_range`) states what these must be."""
 import ast
 import asyncio.streams
 
